@@ -189,7 +189,9 @@ def body(ctx):
         n = rng.choice([0, 1, chunk - 1, chunk, chunk + 1, md - 9, md, md + 9, rng.randint(0, 300000)] + ([rng.randint(1000000, 3500000)] if j % 10 == 0 else []))
         specs.append(dict(seed=ctx.seed + 300 + j, maxdata=md, rid='random', frag=rng.choice(['whole', 'random']),
                           ops=[dict(api='push', size=n, src=rng.choice(['bytesio', 'path']), path='/' + 'x' * rng.randint(1, 1000), st_mode=rng.randrange(2 ** 32),
-                                    mtime=rng.choice([0, rng.randrange(1, 2 ** 32)]), cb=None)]))
+                                    mtime=rng.choice([0, rng.randrange(1, 2 ** 32)]), cb=rng.choice([None, None, 'ok', 'raise']), local_as=rng.choice(['str', 'pathlib']),
+                                    src_short=rng.choice([None, None, 1 if n < 5000 else 4096, 1000, 70000]),      # a source whose read(n) returns fewer than n bytes before the end
+                                    src_offset=rng.choice([0, 0, 0, 3, 4096]))]))                                   # a BytesIO the caller has already read a header from
         labels.append('random')
     run_all(ctx, specs, labels)
     ctx.assumptions += ['maxdata >= 4 KiB and path records <= 1 KiB + mode (the degenerate region maxdata <= 8 + len(path,mode) is outside the property)',
